@@ -202,6 +202,20 @@ def run_harness(binp, args, timeout=2400):
             except ValueError: pass
     return rc, rows, out
 
+def run_harness_chunks(binp, mode, seed, count, extra="", nproc=1):
+    """Several harness processes with seeds derived from the run seed (thorough tier)."""
+    if nproc <= 1:
+        return run_harness(binp, "%s %d %d %s" % (mode, seed, count, extra))
+    from concurrent.futures import ThreadPoolExecutor
+    per = (count + nproc - 1) // nproc
+    with ThreadPoolExecutor(max_workers=nproc) as ex:
+        parts = list(ex.map(lambda i: run_harness(binp, "%s %d %d %s" % (mode, seed + 7919 * i, per, extra)), range(nproc)))
+    rows = []
+    for i, (rc, rs, out) in enumerate(parts):
+        for r in rs: r["chunk"] = i
+        rows += rs
+    return max(p[0] for p in parts), rows[:count] if len(rows) >= count else rows, "\n".join(p[2][-400:] for p in parts if p[0])
+
 def check_C20(run, replay=None):
     tier = run.tier
     n_transform = 300 if tier == "quick" else 5000
@@ -262,12 +276,29 @@ def check_C20(run, replay=None):
         sy_rows = [c for c in cases if c.get("kind") == "synth"]
         ed_rows = []
     else:
-        rc, sy_rows, out = run_harness(binp, "synth %d %d %d" % (run.seed, n_synth, k_synth))
+        # corpus first: past disagreements and the real-code replays of the known classes
+        corpus_rows = []
+        cp = os.path.join(C.ROOT, "corpus", "cli", "cases.jsonl")
+        if os.path.exists(cp):
+            for l in open(cp):
+                if not l.strip(): continue
+                c = json.loads(l)
+                if c["kind"] == "synth":
+                    rc, rows, _ = run_harness(binp, "synth-one %s %d" % (c["case_seed"], int(c.get("runs_requested", 3))))
+                else:
+                    rc, rows, _ = run_harness(binp, "transform-one %s %s %d" % (c["fixture"], c["case_seed"], 1 if c.get("identity") else 0))
+                for r in rows: r["corpus"] = True
+                corpus_rows += rows
+        nproc = 1 if tier == "quick" else 5
+        rc, sy_rows, out = run_harness_chunks(binp, "synth", run.seed, n_synth, str(k_synth), nproc)
         run.oblige("harness-run synth (%d synthetic descriptions x %d transformed runs)" % (n_synth, k_synth), rc == 0 and len(sy_rows) == n_synth, out[-800:] if rc else "")
-        rc, tr_rows, out = run_harness(binp, "transform %d %d" % (run.seed, n_transform))
+        rc, tr_rows, out = run_harness_chunks(binp, "transform", run.seed, n_transform, "", nproc)
         run.oblige("harness-run transform (%d cases)" % n_transform, rc == 0 and len(tr_rows) == n_transform, out[-800:] if rc else "")
-        rc, ed_rows, out = run_harness(binp, "edges %d %d" % (run.seed, n_edges))
+        rc, ed_rows, out = run_harness_chunks(binp, "edges", run.seed, n_edges, "", nproc)
         run.oblige("harness-run edges (%d cases)" % n_edges, rc == 0 and len(ed_rows) == n_edges, out[-800:] if rc else "")
+        sy_rows = [c for c in corpus_rows if c.get("kind") == "synth"] + sy_rows
+        tr_rows = tr_rows + [c for c in corpus_rows if c.get("kind") == "transform"]
+        run.extra["corpus_cases"] = len(corpus_rows)
 
     base = {f: dumps[f]["result"]["ok"] for f in FIXTURES}
     # entries: (kind, payload, coq term producing the verdict)
@@ -275,7 +306,7 @@ def check_C20(run, replay=None):
     for f in FIXTURES:
         m = "CliItems_%s" % f
         entries.append(("fixture", {"kind": "fixture", "fixture": f, "registry": base[f]},
-                        "verdict_fixture %s %s.the_dump %s.edge_list %s.real_registry %s.crates" % ("true" if f in APPS else "false", m, m, m, m), []))
+                        "verdict_fixture %s %s.the_dump %s.edge_list %s.edge_flags %s.real_registry %s.crates" % ("true" if f in APPS else "false", m, m, m, m, m), []))
     for c in CAPS:
         m = "CliItems_%s" % c
         entries.append(("trace", {"kind": "trace", "crate": c, "cli": base[c], "traced": traces[c]["result"]["ok"]},
@@ -305,7 +336,7 @@ def check_C20(run, replay=None):
             else:
                 defs.append("Definition %so%d : registry := %s." % (px, j, cregistry(r["result"]["ok"])))
                 obs.append("(Some %so%d)" % (px, j))
-        entries.append(("synth", c, "verdict_synth %sthe_dump %sedge_list %sreal_registry %scrates %s" % (px, px, px, px, clist(obs)), defs))
+        entries.append(("synth", c, "verdict_synth %sthe_dump %sedge_list %sedge_flags %sreal_registry %scrates %s" % (px, px, px, px, px, clist(obs)), defs))
 
     nsh = 16 if len(entries) > 64 else 4
     shards = [entries[i::nsh] for i in range(nsh)]
@@ -363,6 +394,8 @@ def check_C20(run, replay=None):
     run.oblige("synthetic descriptions: the untransformed run succeeds (generator validity)", len(invalid_synth) * 20 <= max(1, len(sy_rows)),
                json.dumps([{k: c.get(k) for k in ("case_seed", "result")} for c in invalid_synth[:3]])[:800])
     slim = lambda c: {k: v for k, v in c.items() if k not in ("items", "edges", "root", "field", "variant", "local_type_of", "containers", "picks")}
+    size = lambda c: len(json.dumps(c.get("spec", c.get("pick_edges", ""))))
+    bad_ok.sort(key=size); bad_model.sort(key=size)
     if bad_ok:
         run.violation("C20_ok", {"property": "C20", "what": "registry differs from the untransformed description's / is not closed / variant indices not contiguous / differs from the traced serde schema",
                                  "cases": [slim(c) for c in bad_ok[:10]],
